@@ -4549,7 +4549,7 @@ class ParameterizedMetaclass(type):
             type.__setattr__(mcs,attribute_name,value)
 
             if isinstance(value,Parameter):
-                mcs.__param_inheritance(attribute_name,value)
+                mcs._initialize_parameter(attribute_name,value)
                 mcs._clear_parameters_cache()
 
     def _clear_parameters_cache(mcs):
